@@ -39,7 +39,7 @@ def gen_case(tape: Tape, tier: str, clock_revealing: bool = False, force_backend
                "ops": [{"op": "pulse", "ch": "g", "dur": int(T), "amp": {"k": "const", "v": omega}, "det": {"k": "const", "v": 0.0}, "phase": round(tape.float(0, 6.28, "phase"), 3)}]}
         extra = {"omega": omega}
     else:
-        prof: dict[str, Any] = {"n_atoms": (2, 4), "p_modulation": 0.3, "p_slm": 0.15}
+        prof: dict[str, Any] = {"n_atoms": (2, 4), "p_modulation": 0.3, "p_slm": 0.15, "p_xy": 0.08}
         if dur_class == "tiny":
             prof.update(dur=(1, 12), n_pulses=(1, 1), p_local=0.0, p_dmm=0.0, p_slm=0.0, p_modulation=0.0)
         elif dur_class == "long":
@@ -79,7 +79,7 @@ def gen_case(tape: Tape, tier: str, clock_revealing: bool = False, force_backend
                 noise[k] = round(noise[k] * f, 6)
         if "eff_noise_rates" in noise:
             noise["eff_noise_rates"] = [round(r * f, 6) for r in noise["eff_noise_rates"]]
-        cfg["noise"] = noise
+        cfg["noise"] = C.xy_compatible(noise) if scn.get("xy") else noise
     if clock_revealing:
         n = len(scn["atoms"])
         cfg["interaction_matrix"] = [[0.0] * n for _ in range(n)]
